@@ -41,6 +41,7 @@ class FileDumper(DumperBase):
             super(FileDumper, self).process_datapackage(datapackage)
 
         self.file_formatters: Dict[str, FileFormat] = {}
+        taken_paths = set()
 
         # Make sure all resources are proper CSVs
         resource: Resource = None
@@ -63,6 +64,12 @@ class FileDumper(DumperBase):
                 if resource.descriptor.get('path') == 'datapackage.json':
                     raise ValueError("Resource %r cannot be written to 'datapackage.json': "
                                      "that name is taken by the package descriptor" % resource.name)
+                resource_path = resource.descriptor.get('path')
+                if isinstance(resource_path, str):
+                    if resource_path in taken_paths:
+                        raise ValueError("Resource %r would be written to %r, where another resource of the "
+                                         "package is written already" % (resource.name, resource_path))
+                    taken_paths.add(resource_path)
                 resource.commit()
                 datapackage.descriptor['resources'][i] = resource.descriptor
 
